@@ -152,7 +152,7 @@ theorem readIntegerE_ws (c : Nat) (hc : c = 32 ∨ c = 10) (inp : Bytes) :
 /-- **stream_extent.**  With the correct `/Length`, `ReadStreamData` returns exactly the body —
 for every body, also one that contains `endstream`, `endobj`, or ends in CR/LF — and continues
 after the `endstream` keyword.  (`"stream\n" body "\nendstream"` is what `streamWriter` writes.) -/
-theorem stream_extent (body rest : Bytes) (off : Nat) :
+theorem stream_extent (body rest : Bytes) (off : Nat) (hoff : off + 7 + body.length < 9223372036854775808) :
     readStreamData (kw_stream ++ [10] ++ body ++ [10] ++ kwEndstream ++ rest) off (some body.length)
       = .ok (off + 7, body.length, rest) := by
   have hpre : isPrefixOf kw_stream (kw_stream ++ [10] ++ body ++ [10] ++ kwEndstream ++ rest) = true := by
@@ -172,9 +172,10 @@ theorem stream_extent (body rest : Bytes) (off : Nat) :
     simp [skipWS, this, kwEndstream, h2]
   have hp9 : isPrefixOf kwEndstream (kwEndstream ++ rest) = true := by simp [kwEndstream, isPrefixOf]
   have hdrop9 : (kwEndstream ++ rest).drop 9 = rest := by simp [kwEndstream]
+  have hov : decide (off + 6 + 1 + body.length ≥ 9223372036854775808) = false := by simp; omega
   unfold readStreamData
   simp only [hpre, hdrop, Bool.not_true, Bool.false_eq_true, ↓reduceIte, List.drop_succ_cons, List.drop_zero, hd2, hes,
-    hsk, hp9, hdrop9]
+    hsk, hp9, hdrop9, hov]
 
 -- non-vacuity / the interesting bodies: containing the keywords and ending in CR LF
 example : (match readStreamData (kw_stream ++ [10] ++ (kwEndstream ++ [13, 10] ++ kwEndobj ++ [13, 10]) ++ [10] ++ kwEndstream ++ [10, 101])
